@@ -3,8 +3,9 @@
    proved in proofs/CliProofs.v, with Print Assumptions beneath it.
 
    The domain is the finite configuration space of model/Cli.v: argument kind
-   (7) x --type (5) x dereference x filename x recursive x verify (none /
-   matching / non-matching) x exclude = 1680 configurations.  [identify_model]
+   (10: the seven of the statement plus three kinds of argument that cannot be
+   identified - no scheme and no such path; urlparse raises; a URL the library refuses -) x --type (5) x dereference x filename x recursive x verify (none /
+   matching / non-matching) x exclude = 2400 configurations.  [identify_model]
    transcribes the control flow of identify + identify_object over the tabulated
    answers of the operating system; [spec] is the property. *)
 From Coq Require Import List Bool.
@@ -17,8 +18,8 @@ Theorem C18_all_cfgs_complete : forall c : cfg, In c all_cfgs.
 Proof. exact all_cfgs_complete. Qed.
 Print Assumptions C18_all_cfgs_complete.
 
-(* ... which has exactly 1680 pairwise distinct elements. *)
-Theorem C18_all_cfgs_count : length all_cfgs = 1680 /\ NoDup all_cfgs.
+(* ... which has exactly 2400 pairwise distinct elements. *)
+Theorem C18_all_cfgs_count : length all_cfgs = 2400 /\ NoDup all_cfgs.
 Proof. exact all_cfgs_count. Qed.
 Print Assumptions C18_all_cfgs_count.
 
@@ -30,7 +31,7 @@ Print Assumptions C18_all_cfgs_count.
    a recursive listing; recursive listing with a non-directory type;
    verification against an identifier that is not a core SWHID), or the
    verification exit code.  In scope = --type auto or the type of the
-   designated object (model/Cli.v, [in_scope]): 720 configurations. *)
+   designated object (model/Cli.v, [in_scope]): 912 configurations. *)
 Theorem C18_agree : forall c, in_scope c = true -> identify_model c = spec c.
 Proof. exact agree. Qed.
 Print Assumptions C18_agree.
@@ -71,7 +72,7 @@ Theorem C18_print_designated : forall c o ex sh ls, in_scope c = true ->
 Proof. exact print_designated. Qed.
 Print Assumptions C18_print_designated.
 
-(* The four behaviours repaired in /repo, as refutations of the old code
+(* The five behaviours repaired in /repo, as refutations of the old code
    (the old code is the model with one switch of [variant] turned on).
    (1) `swh identify <link->dir>`: realpath(obj) is a str -> TypeError. *)
 Theorem C18_agree_refuted_old_realpath : exists c, in_scope c = true /\
@@ -102,13 +103,22 @@ Theorem C18_agree_refuted_old_recursive_follows : exists c, in_scope c = true /\
 Proof. exact agree_refuted_old_recfollows. Qed.
 Print Assumptions C18_agree_refuted_old_recursive_follows.
 
+(* (5) `swh identify [-t origin] <URL of 2048 bytes or more, or not valid
+   UTF-8>`: the ValueError of model.Origin was not caught -> traceback. *)
+Theorem C18_agree_refuted_old_origin_uncaught : exists c, in_scope c = true /\ in_scope_literal c = true /\
+  nondefault c = 0 /\ identify_old_originuncaught c = Crash CrValueError /\
+  spec c = Usage /\ identify_model c = spec c.
+Proof. exact agree_refuted_old_originuncaught. Qed.
+Print Assumptions C18_agree_refuted_old_origin_uncaught.
+
 (* Each old behaviour broke exactly its class of in-scope configurations
-   (24, 20, 16 and 24 of the 720). *)
+   (24, 20, 16, 24 and 96 of the 912). *)
 Theorem C18_old_deviations_exact : forall c, in_scope c = true ->
   (identify_old_realpath c <> spec c <-> old_realpath_class c = true) /\
   (identify_old_rectype c <> spec c <-> old_rectype_class c = true) /\
   (identify_old_autolink c <> spec c <-> old_autolink_class c = true) /\
-  (identify_old_recfollows c <> spec c <-> old_recfollows_class c = true).
+  (identify_old_recfollows c <> spec c <-> old_recfollows_class c = true) /\
+  (identify_old_originuncaught c <> spec c <-> old_originuncaught_class c = true).
 Proof. exact old_deviations_exact. Qed.
 Print Assumptions C18_old_deviations_exact.
 
@@ -127,7 +137,57 @@ Theorem C18_in_scope_satisfiable :
              identify_model c = Print ODirAtLinkTarget true false true /\ spec c = identify_model c) /\
   (exists c, in_scope c = true /\ nondefault c >= 3 /\
              identify_model c = Exit0 /\ spec c = Exit0) /\
-  length (filter in_scope all_cfgs) = 720 /\
-  length (filter in_scope_literal all_cfgs) = 672.
+  length (filter in_scope all_cfgs) = 912 /\
+  length (filter in_scope_literal all_cfgs) = 864.
 Proof. exact in_scope_satisfiable. Qed.
 Print Assumptions C18_in_scope_satisfiable.
+
+(* ---- several OBJECTS in one invocation (any number of arguments) ---- *)
+
+(* With one argument, the run of the several-arguments model is the outcome of
+   the one-argument table - for every configuration, in scope or not. *)
+Theorem C18_many_single : forall c k, identify_many c [k] = embed (identify_model (with_arg c k)).
+Proof. exact many_single. Qed.
+Print Assumptions C18_many_single.
+
+(* For every list of arguments, of any length and any mix of kinds, each in
+   scope under the shared options: one invocation prints, in the order of the
+   arguments, exactly the line each argument gets when it is given alone (the
+   type, dereference, filename and exclusion options reach every argument
+   alike); --verify with several arguments is the documented usage error. *)
+Theorem C18_many_agree : forall c ks, in_scope_many c ks = true -> identify_many c ks = spec_many c ks.
+Proof. exact many_agree. Qed.
+Print Assumptions C18_many_agree.
+
+(* Out of scope, recorded: --recursive with several arguments lists the first
+   one only and ignores the others without a word. *)
+Theorem C18_many_recursive_first_only :
+  let c := mkCfg ADir TAuto true true true VNone false in
+  identify_many c [ADir; ADir] = MOut [(ODirAtPath, false, true, true)] MDone /\
+  spec_many c [ADir; ADir] = MOut [(ODirAtPath, false, true, true); (ODirAtPath, false, true, true)] MDone /\
+  in_scope_many c [ADir; ADir] = false.
+Proof. exact many_recursive_first_only. Qed.
+Print Assumptions C18_many_recursive_first_only.
+
+(* An argument that cannot be identified (no such path and no scheme, or a
+   malformed URL on which urlparse raises) ends the run with a usage error,
+   after the lines of the arguments before it. *)
+Theorem C18_many_usage_after_lines :
+  let c := mkCfg AFile TAuto true true false VNone false in
+  in_scope_many c [AFile; ABadUrl; ADir] = true /\
+  identify_many c [AFile; ABadUrl; ADir] = MOut [(OPathContent, false, true, false)] MUsageEnd /\
+  identify_many c [AMissing; AFile] = MOut [] MUsageEnd.
+Proof. exact many_usage_after_lines. Qed.
+Print Assumptions C18_many_usage_after_lines.
+
+(* Non-vacuity of C18_many_agree: seven arguments of mixed kinds with --exclude. *)
+Theorem C18_many_satisfiable :
+  let c := mkCfg AFile TAuto false true false VNone true in
+  let ks := [ADir; ADir; ALinkDir; AFile; AStdin; AUrl; AGitRepo] in
+  in_scope_many c ks = true /\
+  identify_many c ks = MOut [(ODirAtPath, true, true, false); (ODirAtPath, true, true, false);
+                             (OLinkText, false, true, false); (OPathContent, false, true, false);
+                             (OStdin, false, true, false); (OOrigin, false, true, false);
+                             (ODirAtPath, true, true, false)] MDone.
+Proof. exact many_satisfiable. Qed.
+Print Assumptions C18_many_satisfiable.
